@@ -36,6 +36,9 @@ structure Sub where
   onceStarted : Bool := false   -- closeOnce has been entered
   doneClosed : Bool := false
   chClosed : Bool := false
+  -- ghost (bookkeeping for the monitors; never read by `step?`)
+  subAt : Nat := 0              -- number of messages published before it subscribed
+  closedAt : Option Nat := none -- number of messages published when its close began
 deriving DecidableEq, Repr
 
 inductive Stage where
@@ -98,7 +101,8 @@ def holders (s : St) (sub : Nat) : List Delivery := s.pending.filter (fun d => d
 
 /-- `closeChannel` up to and including `close(done)` (the `Once` lets only the first caller in). -/
 def beginClose (s : St) (id : Nat) : St :=
-  updSub s id (fun x => if x.onceStarted then x else { x with onceStarted := true, doneClosed := true })
+  updSub s id (fun x => if x.onceStarted then x else
+    { x with onceStarted := true, doneClosed := true, closedAt := some s.published.length })
 
 def finish (s : St) (d : Delivery) (o : Outcome) : St :=
   let s := dropDel s d.uid d.sub
@@ -107,7 +111,8 @@ def finish (s : St) (d : Delivery) (o : Outcome) : St :=
 def step? (s : St) : Act → Option St
   | .subscribe cap f t cbF cbT =>
     let id := s.count + 1
-    some { s with count := id, subs := s.subs ++ [{ id := id, cap := cap, filter := f, timeout := t, cbFiltered := cbF, cbTimeout := cbT }] }
+    some { s with count := id, subs := s.subs ++ [{ id := id, cap := cap, filter := f, timeout := t, cbFiltered := cbF, cbTimeout := cbT,
+                                                        subAt := s.published.length }] }
   | .publish msg =>
     let uid := s.nextUid
     let go (acc : St) (x : Sub) : St :=
